@@ -81,7 +81,20 @@ def main():
             if proved_in(u, fname):
                 continue
             n_assumed += 1
-            provers = [v for v in allunits if v["file"] == u["file"] and fname in v["funcs"] and proved_in(v, fname)]
+            # a block naming a function of ANOTHER package in full, e.g. (github.com/tmpim/casket/caskethttp/staticfiles.FileServer).IsHidden
+            home, short = u["file"], fname
+            m = re.match(r"^\((\*?)github\.com/tmpim/casket/?([\w/]*)\.(\w+)\)\.(.*)$", fname) or re.match(r"^()github\.com/tmpim/casket/?([\w/]*)\.()(\w+)$", fname)
+            if m:
+                d = m.group(2)
+                home = (d + "/" if d else "") + "contracts_verif.go"
+                short = ("(%s%s).%s" % (m.group(1), m.group(3), m.group(4))) if m.group(3) else m.group(4)
+            provers = [v for v in allunits if v["file"] == home and short in v["funcs"] and proved_in(v, short)]
+            if home != u["file"] and provers:
+                n_proved += 1
+                pc = provers[0]["funcs"][short]
+                extra = [e for e in c.get("ensures", []) if e not in pc.get("ensures", [])]
+                rows.append((u["file"], u["name"], fname, provers[0]["file"].replace("/contracts_verif.go", "") + ":" + provers[0]["name"], "proved in its own package" + ("; assumed `ensures` not literally among the proved ones: " + "; ".join("`%s`" % e for e in extra) if extra else "")))
+                continue
             sweeps = [v for v in allunits if v["file"] == u["file"] and fname not in v["funcs"] and v["files"] and proved_in(v, fname)]
             importers = [v for v in allunits if v is not u and fname not in v["funcs"] and proved_in(v, fname)
                          and any(x.strip() == "%s:%s" % (u["file"], u["name"]) for x in v["uses"])]
